@@ -127,6 +127,7 @@ Section Dup.
   Variable before : list N.
   Notation Hgen := (fun ready : list (N * V) => Gen.IntrHit.get_hit_key ready before).
 
+  Ltac calc_unfold := first [ rewrite calc_next_end_unfold | rewrite calc_next_unfold ].
   Ltac use_gen' :=
     unfold Gen.IntrLoop.loop_body, Gen.IntrLoop.init_body, Gen.IntrLoop.tm_wait.
   Ltac expose' :=
@@ -145,19 +146,19 @@ Section Dup.
   Ltac batch_proof_h :=
     let Hrr := fresh "Hrr" in
     intros cs gs next0 rs sched Hnd; use_gen'; unfold decide_h;
-    expose'; unfold resolve_spec; cbn [app];
+    expose'; rewrite resolve_spec_unfold; cbn [app];
     destruct (first_fail rs) as [e|]; [reflexivity|];
     norm_conds'; align_cond';
     destruct (negb (is_nil (subcps rs) && is_nil (reruns rs))) eqn:Hrr; cbn [negb];
     [ expose'; rewrite resolve_spec_nil, app_nil_r; cbn [batch_view]; apply handle_sub_rerun_agrees; assumption
     | norm_conds'; align_cond'; destruct (is_nil rs); cbn [negb]; [reflexivity|];
-      rewrite calc_next_unfold; destruct (calc fold getr cs (outs rs)) as [[cs2 ready]|e|]; try reflexivity;
+      calc_unfold; destruct (calc fold getr cs (outs rs)) as [[cs2 ready]|e|]; try reflexivity;
       destruct (nlist_get kEnd ready) as [v|]; [reflexivity|];
       expose'; norm_conds'; align_cond';
       destruct (is_nil (Gen.IntrHit.get_hit_key ready before) && is_nil (afters after rs)); cbn [negb]; [reflexivity|];
       expose'; rewrite resolve_spec_nil; norm_conds';
       match goal with |- ?f (if ?c then _ else _) = _ => replace c with false by (rewrite <- Hrr; bool_tauto') end;
-      rewrite calc_next_unfold; cbn [outs flat_map];
+      calc_unfold; cbn [outs flat_map];
       destruct (calc fold getr cs2 []) as [[cs4 ready2]|e|]; try reflexivity;
       destruct (nlist_get kEnd ready2) as [v|]; [reflexivity|]; expose'; reflexivity ].
 
@@ -166,35 +167,35 @@ Section Dup.
     let Hnd' := fresh "Hnd'" in let Hndr := fresh "Hndr" in
     intros cs gs next0 running sched Hnd; use_gen'; unfold tm_wait_one; cbn [fst snd];
     destruct (pick running sched) as [[[c rest] sched']|] eqn:Hp;
-    [| expose'; unfold resolve_spec; cbn [first_fail flat_map app subpairs reruns afters outs map filter];
+    [| expose'; rewrite resolve_spec_unfold; cbn [first_fail flat_map app subpairs reruns afters outs map filter];
        norm_conds'; cbn [is_nil negb andb orb]; norm_conds'; cbn [is_nil negb andb orb]; reflexivity ];
     destruct (pick_nodup _ _ _ _ _ Hp Hnd) as [Hnd' Hndr];
-    unfold edecide_h; expose'; unfold resolve_spec at 1; cbn [app];
+    unfold edecide_h; expose'; rewrite resolve_spec_unfold; cbn [app];
     destruct (first_fail [c]) as [e|]; [reflexivity|];
     norm_conds'; align_cond';
     destruct (negb (is_nil (subcps [c]) && is_nil (reruns [c]))) eqn:Hrr; cbn [negb];
-    [ expose'; unfold resolve_spec;
+    [ expose'; rewrite resolve_spec_unfold;
       destruct (first_fail rest) as [e|]; [reflexivity|];
       rewrite <- subpairs_app, <- reruns_app, <- afters_app; cbn [app eager_view]; f_equal;
       apply handle_sub_rerun_agrees; assumption
     | norm_conds'; cbn [is_nil negb];
-      rewrite calc_next_unfold; destruct (calc fold getr cs (outs [c])) as [[cs2 ready]|e|]; try reflexivity;
+      calc_unfold; destruct (calc fold getr cs (outs [c])) as [[cs2 ready]|e|]; try reflexivity;
       destruct (nlist_get kEnd ready) as [v|]; [reflexivity|];
       expose'; norm_conds'; align_cond';
       destruct (is_nil (Gen.IntrHit.get_hit_key ready before) && is_nil (afters after [c])); cbn [negb]; [reflexivity|];
-      expose'; unfold resolve_spec;
+      expose'; rewrite resolve_spec_unfold;
       destruct (first_fail rest) as [e|]; [reflexivity|];
       destruct (no_sub_rerun _ Hrr) as [Hs Hr]; rewrite Hs, Hr; cbn [app];
       norm_conds'; align_cond';
       destruct (negb (is_nil (subcps rest) && is_nil (reruns rest))); cbn [negb];
       [ cbn [eager_view]; f_equal; apply handle_sub_rerun_agrees; assumption
-      | rewrite calc_next_unfold;
+      | calc_unfold;
         destruct (calc fold getr cs2 (outs rest)) as [[cs4 ready2]|e|]; try reflexivity;
         destruct (nlist_get kEnd ready2) as [v|]; [reflexivity|]; expose'; reflexivity ] ].
 
   Ltac init_proof_h :=
     intros cs gs x tm; use_gen'; unfold init_h;
-    rewrite calc_next_unfold; cbn [outs flat_map snd fst app];
+    calc_unfold; cbn [outs flat_map snd fst app];
     destruct (calc fold getr cs [(kStart, x)]) as [[cs1 ready]|e|]; try reflexivity;
     destruct (nlist_get kEnd ready) as [v|]; [reflexivity|];
     expose'; norm_conds'; cbn [orb]; align_cond';
